@@ -42,10 +42,14 @@ type xcase struct {
 	primeIx int // -1: in-tree TestServerRNG (Telegram prime, fixed pq); otherwise c09x.SafePrimes[primeIx] or -2 = Telegram prime with harness RNG
 	extra   int // fabricated trusted keys placed before the server's key in the client's list
 	seed    uint64
+	// directed parts of the two random tapes (0 / nil = drawn from the seed)
+	bDir   int   // the client's DH exponent b (small: g_b = 3^b has leading zero bytes)
+	aDraws []int // the server's first draws of a: weak ones (g_a ≤ 2^1984, must be re-drawn), then possibly a small acceptable one
+	nonceZ int   // leading zero bytes of nonce, new_nonce and server_nonce
 }
 
 func (x xcase) String() string {
-	return fmt.Sprintf("dc=%d temp=%v expires=%d prime=%d extra=%d seed=%d", x.dc, x.temp, x.expires, x.primeIx, x.extra, x.seed)
+	return fmt.Sprintf("dc=%d temp=%v expires=%d prime=%d extra=%d b=%d a=%v nonce-zeros=%d seed=%d", x.dc, x.temp, x.expires, x.primeIx, x.extra, x.bDir, x.aDraws, x.nonceZ, x.seed)
 }
 
 type xout struct {
@@ -54,7 +58,8 @@ type xout struct {
 	sres       exchange.ServerExchangeResult
 	serr       error
 	sent, recv [][]byte
-	b, a       *big.Int
+	b          *big.Int
+	adraws     []*big.Int // every draw of a by the server, in order
 	sid        uint64
 	keys       []uint64 // client's trusted fingerprints
 	sfp        uint64
@@ -73,8 +78,28 @@ func runCase(x xcase, priv exchange.PrivateKey) xout {
 	defer client.Close()
 	defer server.Close()
 	tap := &c09x.Tap{Inner: client}
-	crand := &c09x.RecReader{R: r.Fork()}
-	srand := &c09x.RecReader{R: r.Fork()}
+	cdir := &c09x.DirReader{R: r.Fork()}
+	sdir := &c09x.DirReader{R: r.Fork()}
+	if x.bDir > 0 {
+		cdir.PushExp(big.NewInt(int64(x.bDir)))
+	}
+	for _, a := range x.aDraws {
+		sdir.PushExp(big.NewInt(int64(a)))
+	}
+	if x.nonceZ > 0 {
+		z := func(n int) []byte {
+			b := r.Bytes(n)
+			for i := 0; i < x.nonceZ && i < n; i++ {
+				b[i] = 0
+			}
+			return b
+		}
+		cdir.Push(z(16)) // nonce: the client's first 16-byte read
+		cdir.Push(z(32)) // new_nonce: its first 32-byte read
+		sdir.Push(z(16)) // server_nonce
+	}
+	crand := &c09x.RecReader{R: cdir}
+	srand := &c09x.RecReader{R: sdir}
 	var keys []exchange.PublicKey
 	for i := 0; i < x.extra; i++ {
 		keys = append(keys, fakeKey(r))
@@ -138,11 +163,7 @@ func runCase(x xcase, priv exchange.PrivateKey) xout {
 	wg.Wait()
 	o.sent, o.recv = tap.Frames()
 	o.b = crand.Last256()
-	if hrng != nil {
-		o.a = hrng.A
-	} else {
-		o.a = srand.Last256()
-	}
+	o.adraws = srand.All256()
 	// NewSessionID is the client's last 8-byte read
 	for i := len(crand.Reads) - 1; i >= 0; i-- {
 		if len(crand.Reads[i]) == 8 {
@@ -159,6 +180,30 @@ func u64s(xs []uint64) string {
 		s[i] = fmt.Sprint(x)
 	}
 	return strings.Join(s, ",")
+}
+
+func bigs(xs []*big.Int) string {
+	s := make([]string, len(xs))
+	for i, x := range xs {
+		s[i] = x.String()
+	}
+	return strings.Join(s, ",")
+}
+
+// zeroKeyPair searches small acceptable exponents a, b whose shared key 3^(ab) mod p has at least
+// one leading zero byte (the 256-byte FillBytes encodings of the key on both sides).
+func zeroKeyPair(r *hc.RNG, p *big.Int, strong []c09x.SmallExp) (a, b int) {
+	three := big.NewInt(3)
+	off := r.Intn(len(strong) * len(strong))
+	for k := 0; k < len(strong)*len(strong); k++ {
+		i := (off + k) % (len(strong) * len(strong))
+		ea, eb := strong[i/len(strong)].E, strong[i%len(strong)].E
+		key := new(big.Int).Exp(three, big.NewInt(int64(ea*eb)), p)
+		if key.BitLen() <= 2040 {
+			return ea, eb
+		}
+	}
+	return 0, 0
 }
 
 func b2i(b bool) int {
@@ -178,6 +223,7 @@ func run(c *hc.Ctx) error {
 			return fmt.Errorf("harness: SafePrimes[%d] is not a 2048-bit safe prime", i)
 		}
 	}
+	strong, weak := c09x.SmallExps()
 	dcs := []int{-3, -2, -1, 0, 1, 2, 3, 4, 5, 10002}
 	n := c.N(40, 2000)
 	cases := make([]xcase, n)
@@ -195,6 +241,44 @@ func run(c *hc.Ctx) error {
 			x.primeIx = r.Intn(len(c09x.SafePrimes))
 		}
 		x.extra = hc.Pick(r, 0, 0, 1, 3)
+		// Directed tapes.  Small exponents e (3^e < p, so g^e mod p = 3^e exactly) give g_a / g_b with
+		// 0…7 leading zero bytes, i.e. every TL-header / padding alignment class of the two inner
+		// data objects; weak first draws make the server's re-draw loop run.
+		byLen := func(l int) int { // a small acceptable exponent with a 3^e of l bytes
+			var c []int
+			for _, e := range strong {
+				if e.Len == l {
+					c = append(c, e.E)
+				}
+			}
+			return c[r.Intn(len(c))]
+		}
+		switch i % 4 {
+		case 1: // client: g_b of 249…256 bytes, cycling through the lengths
+			x.bDir = byLen(249 + (i/4)%8)
+		case 2: // server: 0–2 weak draws first, then a small acceptable a (cycling lengths) or a random one
+			for k := (i / 4) % 3; k > 0; k-- {
+				x.aDraws = append(x.aDraws, weak[r.Intn(len(weak))].E)
+			}
+			if (i/4)%2 == 0 || len(x.aDraws) == 0 {
+				x.aDraws = append(x.aDraws, byLen(249+(i/8)%8))
+			}
+		case 3: // both small; every third of these: a shared key with a leading zero byte
+			x.bDir = byLen(249 + r.Intn(8))
+			x.aDraws = []int{byLen(249 + r.Intn(8))}
+			if (i/4)%3 == 0 {
+				prime := c09x.TelegramPrime()
+				if x.primeIx >= 0 {
+					prime = c09x.SafePrime(x.primeIx)
+				}
+				if a, b := zeroKeyPair(r, prime, strong); a != 0 {
+					x.aDraws, x.bDir = []int{a}, b
+				}
+			}
+		}
+		if i%5 == 3 {
+			x.nonceZ = hc.Pick(r, 1, 2, 3, 4, 8, 16)
+		}
 		cases[i] = x
 	}
 	outs := make([]xout, n)
@@ -229,6 +313,25 @@ func run(c *hc.Ctx) error {
 		default:
 			c.Count("rng.harness.table-prime")
 		}
+		if x.bDir > 0 {
+			c.Count("directed.b")
+		}
+		if len(x.aDraws) > 1 {
+			c.Count("directed.a.weak-first")
+		} else if len(x.aDraws) == 1 {
+			c.Count("directed.a")
+		}
+		if x.nonceZ > 0 {
+			c.Count("directed.nonce-leading-zeros")
+		}
+		if o.cerr == nil && o.serr == nil {
+			if o.cres.AuthKey.Value[0] == 0 {
+				c.Count("observed.key-leading-zero")
+			}
+			if len(o.adraws) > 1 {
+				c.Count("observed.server-redrew-a")
+			}
+		}
 		// ---- monitor
 		if o.cerr != nil || o.serr != nil {
 			c.Fail("honest-exchange-failed", in, fmt.Sprintf("client err=%v server err=%v", o.cerr, o.serr))
@@ -249,7 +352,7 @@ func run(c *hc.Ctx) error {
 			}
 		}
 		// ---- model line
-		if len(o.sent) != 3 || len(o.recv) != 3 || o.a == nil || o.b == nil {
+		if len(o.sent) != 3 || len(o.recv) != 3 || len(o.adraws) == 0 || o.b == nil {
 			if o.cerr == nil && o.serr == nil {
 				c.Fail("unexpected-message-count", in, fmt.Sprintf("client sent %d frames, received %d", len(o.sent), len(o.recv)))
 			}
@@ -269,9 +372,9 @@ func run(c *hc.Ctx) error {
 			c.Fail("undecodable-honest-message", in, strings.Join(obs[:], " | "))
 			continue
 		}
-		line := fmt.Sprintf("honest keys=%s cdc=%d temp=%d exp=%d nonce=%s newnonce=%s b=%s sid=%d sfp=%d sdc=%d snonce=%s pq=%s prime=%s a=%s time=%d primes=%s factor=%s:%s:%s",
+		line := fmt.Sprintf("honest keys=%s cdc=%d temp=%d exp=%d nonce=%s newnonce=%s b=%s sid=%d sfp=%d sdc=%d snonce=%s pq=%s prime=%s adraws=%s time=%d primes=%s factor=%s:%s:%s",
 			u64s(o.keys), x.dc, b2i(x.temp), x.expires, f1[1], hc.Hex(dec.NewNonce), o.b, o.sid, o.sfp, x.dc, f1[2], f1[3],
-			o.prime, o.a, dec.Inner.ServerTime, c09x.Primes(o.prime, c09x.Half(o.prime)), f1[3], f2[3], f2[4])
+			o.prime, bigs(o.adraws), dec.Inner.ServerTime, c09x.Primes(o.prime, c09x.Half(o.prime)), f1[3], f2[3], f2[4])
 		lines = append(lines, line)
 		inputs = append(inputs, in)
 		wants = append(wants, append(append([]string{}, obs[:]...), c09x.ClientResult(o.cres, o.cerr), c09x.ServerResult(o.sres, o.serr)))
